@@ -602,8 +602,8 @@ Definition C10_struct_statement : Prop :=
       = Ok (map (fun a => erase (a_val a)) l).
 
 Definition ex_ts : str := [84; 105; 109; 101; 115; 112; 97; 110]%N.                 (* "Timespan" *)
-Definition ex_1s : str := [48; 45; 48; 48; 58; 48; 48; 58; 48; 49; 46; 48]%N.         (* "0-00:00:01.0" *)
-Definition ex_1s5 : str := [48; 45; 48; 48; 58; 48; 48; 58; 48; 49; 46; 53]%N.        (* "0-00:00:01.5" *)
+Definition ex_1s : str := [49; 46; 48; 48; 48; 48; 48; 48; 48; 48; 48]%N.             (* "1.000000000", the serialization string *)
+Definition ex_1s5 : str := [49; 46; 53; 48; 48; 48; 48; 48; 48; 48; 48]%N.            (* "1.500000000" *)
 Definition ex_dur_attrs : list (attr str) :=
   [mkattr [110]%N (VInt 1) false; mkattr [115]%N (VRich 0 ex_ts false ex_1s5 ex_1s5) true].
 Definition ex_dur_decls : list (decl str) := [mkdecl [110]%N None; mkdecl [115]%N (Some (PRich ex_ts ex_1s))].
